@@ -126,6 +126,13 @@ func (e *explorer) run(prefix, prefixN []int, trace bool) (*X, *vrt.Result) {
 	r := vrt.Run(vrt.Config{Prefix: prefix, PrefixN: prefixN, Trace: trace}, func() { e.sc.Body(x) })
 	if e.sc.Post != nil {
 		e.sc.Post(x, r)
+	} else {
+		if r.Panic != "" {
+			x.Fail("panic", "%s", r.Panic)
+		}
+		if r.Deadlock {
+			x.Fail("deadlock", "blocked: %v", r.Blocked)
+		}
 	}
 	return x, r
 }
@@ -160,12 +167,6 @@ func (e *explorer) rec(prefix, prefixN []int, used int, expandOnly bool) {
 	}
 	if r.Horizon {
 		e.res.Horizons++
-	}
-	if r.Panic != "" && e.sc.Post == nil {
-		x.Fail("panic", "%s", r.Panic)
-	}
-	if r.Deadlock && e.sc.Post == nil {
-		x.Fail("deadlock", "blocked: %v", r.Blocked)
 	}
 	e.res.Outcomes[x.Obs]++
 	if e.job.Trace {
